@@ -2,8 +2,10 @@
    the SOURCE writes it (Generated/TablesTime.v: src_action_due, translated from the source text on every run), decides
    exactly like the comparison of the exact times of the model (Sched/Model.v: a_time a <=? now tl).  Depends on the axioms
    of Coq's classical real numbers (standard library) only. *)
-From Coq Require Import ZArith Reals.
-From Isobar Require Import Base.FloatGrid Base.FloatRound8 Generated.TablesTime Base.FloatDue Base.FloatDueSrc.
+From Coq Require Import ZArith Reals Lra Lia.
+From Flocq Require Import Core.
+From Isobar Require Import Base.FloatGrid Base.FloatRound8 Generated.TablesTime Base.FloatDue Base.FloatDueSrc
+                           Base.FloatGridSrc Base.FloatStamp Base.FloatStampSrc Sched.Model.
 Open Scope R_scope.
 
 Theorem C05_float_action_due_is_exact : forall (U tpb tau k b : Z) (t a E : R),
@@ -12,3 +14,42 @@ Theorem C05_float_action_due_is_exact : forall (U tpb tau k b : Z) (t a E : R),
   src_action_due a t = (b <=? k * tau)%Z.
 Proof. exact src_action_due_exact. Qed.
 Print Assumptions C05_float_action_due_is_exact.
+
+(* Run level: the closeness of the float action time is no longer a hypothesis.  The action time is the term generated
+   from the source text of Timeline._schedule_action (src_action_time t q dl: quantize * math.ceil(round(float(
+   self.current_time) / quantize, 8)) + delay, or current_time + delay when quantize is 0 - one rounding per operation,
+   round(., 8) correctly rounded, math.ceil exact), the clock and the due test are the source's own.  The action
+   scheduled on timeline tick k is performed on tick k' iff k' >= ceil(X / tau), X = the exact scheduled time of the
+   model (Sched/Model.v: sched_time) in units: the float computation starts it on the exact tick.  In particular
+   ceil(round(fl(t / q), 8)) IS the exact ceiling of t / q (Base/FloatStamp.v: ceil_round8_float): the round(., 8)
+   absorbs the float error when t / q is a whole number.  Hypotheses (action_admissible): tpb <= 2^20, grid of at most
+   10^8/2 units per beat, quantize <= 10^8 units, at most 5 * 10^6 quantize periods since time 0, float inputs within
+   relative 2^-51 of the rationals they stand for, all times up to 450000 beats and 2^32 ticks. *)
+Theorem C05_float_start_tick_is_exact : forall (tpb tau : Z) (k k' : nat) (qn dn : Z) (q dl T : R),
+  action_admissible tpb tau k qn dn q dl T -> (Z.of_nat k' <= 2 ^ 32)%Z -> IZR (Z.of_nat k') / IZR tpb <= T ->
+  src_action_due (src_action_time (src_timeline_clock tpb k) q dl) (src_timeline_clock tpb k')
+  = (cdiv (sched_time (Z.of_nat k * tau) qn dn) tau <=? Z.of_nat k')%Z.
+Proof. exact src_action_start_exact. Qed.
+Print Assumptions C05_float_start_tick_is_exact.
+
+(* the float scheduled time is within 2^-48 * T of the model's exact one *)
+Theorem C05_float_action_time_error : forall (tpb tau : Z) (k : nat) (qn dn : Z) (q dl T : R),
+  action_admissible tpb tau k qn dn q dl T ->
+  Rabs (src_action_time (src_timeline_clock tpb k) q dl - IZR (sched_time (Z.of_nat k * tau) qn dn) / IZR (tau * tpb))
+    <= bpow radix2 (-48) * T.
+Proof. exact src_action_time_error. Qed.
+Print Assumptions C05_float_action_time_error.
+
+(* non-vacuity: 480 ticks per beat, quantize = 1 beat, delay = 0.1 (the nearest double): scheduled on tick k, started
+   on the first tick at or after the next whole beat plus 48 ticks *)
+Example C05_float_start_nonvacuous_480 : forall k k' : nat, (Z.of_nat k <= 200000000)%Z -> (Z.of_nat k' <= 200000000)%Z ->
+  src_action_due (src_action_time (src_timeline_clock 480 k) 1 (RN (1 / 10))) (src_timeline_clock 480 k')
+  = (480 * cdiv (Z.of_nat k) 480 + 48 <=? Z.of_nat k')%Z.
+Proof.
+  intros k k' Hk Hk'.
+  rewrite (C05_float_start_tick_is_exact 480 1 k k' 480 48 1 (RN (1 / 10)) 450000 (action_admissible_480 k Hk)).
+  - unfold sched_time, cdiv. simpl Z.eqb. cbv iota. rewrite !Z.mul_1_r, !Z.div_1_r. f_equal. lia.
+  - change (2 ^ 32)%Z with 4294967296%Z. lia.
+  - apply IZR_le in Hk'. unfold Rdiv. lra.
+Qed.
+Print Assumptions C05_float_start_nonvacuous_480.
